@@ -28,6 +28,7 @@ namespace sim {
 static TaskCtx g_main_ctx;
 static thread_local TaskCtx* tl_cur = nullptr;
 static AllocStats g_as;
+static int64_t g_as_base_bytes = 0;   // live bytes when the current execution started (blocks leaked by earlier fault runs stay counted as live)
 static uint64_t* g_status = nullptr;
 static uint64_t g_status_dummy[8];
 static uint32_t g_nguards = 0;
@@ -220,7 +221,7 @@ void rt_env_release() {
   g_spacer_n = 0;
 }
 AllocStats& rt_alloc_stats() { return g_as; }
-void rt_reset_alloc_stats() { int64_t lb = g_as.live_blocks, ly = g_as.live_bytes; g_as = AllocStats(); g_as.live_blocks = lb; g_as.live_bytes = ly; g_as.peak_bytes = ly; }
+void rt_reset_alloc_stats() { int64_t lb = g_as.live_blocks, ly = g_as.live_bytes; g_as = AllocStats(); g_as.live_blocks = lb; g_as.live_bytes = ly; g_as.peak_bytes = ly; g_as_base_bytes = ly; }
 
 static void* sim_alloc(size_t n, bool nothrow, int kind, size_t align) {
   TaskCtx* t = sim_cur();
@@ -250,7 +251,7 @@ static void* sim_alloc(size_t n, bool nothrow, int kind, size_t align) {
       ++g_as.live_blocks; g_as.live_bytes += (int64_t)n;
       if (g_as.live_bytes > g_as.peak_bytes) g_as.peak_bytes = g_as.live_bytes;
       if ((int64_t)n > g_as.max_request) g_as.max_request = (int64_t)n;
-      if (g_as.live_bytes > MAX_LIVE)
+      if (g_as.live_bytes - g_as_base_bytes > MAX_LIVE)
         rt_die(80, "kind=memory-unbounded live_bytes=%lld op=%d guard=%u", (long long)g_as.live_bytes, t->op, t->last_guard);
       return user;
     }
@@ -269,7 +270,7 @@ static void* sim_alloc(size_t n, bool nothrow, int kind, size_t align) {
     ++g_as.live_blocks; g_as.live_bytes += (int64_t)n;
     if (g_as.live_bytes > g_as.peak_bytes) g_as.peak_bytes = g_as.live_bytes;
     if ((int64_t)n > g_as.max_request) g_as.max_request = (int64_t)n;
-    if (g_as.live_bytes > MAX_LIVE)
+    if (g_as.live_bytes - g_as_base_bytes > MAX_LIVE)
       rt_die(80, "kind=memory-unbounded live_bytes=%lld op=%d guard=%u", (long long)g_as.live_bytes, t->op, t->last_guard);
   }
   return user;
